@@ -687,12 +687,12 @@ struct TreeEngine : Engine
     }
     std::string rule(std::string const &prop) const override
     {
-        if (prop == "C03") return "items are seeded insert/remove histories (1-4 clients, key universe 4..4096, node pool 4..1024) during and after which every iterator form is compared with a recursive reference traversal and tear-down is driven with 0-3 interruptions (resumed with the saved cursor or from scratch), each yielded node poisoned at once; distinct_nontrivial = HyperLogLog estimate of distinct tree shapes (structure + balance/colour bits) on which the iterator or structural oracle ran";
-        return "items are seeded multi-client insert / duplicate-insert / remove / lookup / burst histories on the real tree with a std::map reference model; all structural invariants are re-derived by an O(n) walk after every single insert and remove; distinct_nontrivial = HyperLogLog estimate of distinct tree shapes (structure + balance/colour bits) reached";
+        if (prop == "C03") return "items are seeded insert/remove histories (1-4 clients, key universe 4..4096, node pool 4..1024, one run in 400 with a 70000-node pool) during and after which every iterator form (functions, lower- and upper-case macros) is compared with a recursive reference traversal and tear-down is driven with 0-3 interruptions (started at the root or at a seeded element; resumed with the saved cursor, from scratch, or at a seeded element), each yielded node poisoned at once; distinct_nontrivial = HyperLogLog estimate of distinct tree shapes (structure + balance/colour bits) on which the iterator or structural oracle ran";
+        return "items are seeded multi-client insert (library insert or manual link + insert_adjust) / duplicate-insert (other object or the resident object itself) / remove / lookup (node-shaped or bare-key probe) / burst histories on the real tree with a std::map reference model and three comparator styles (sign, difference, huge magnitudes); all structural invariants are re-derived by an O(n) walk after every single insert and remove (every 4096th in the rare 70000-node runs); distinct_nontrivial = HyperLogLog estimate of distinct tree shapes (structure + balance/colour bits) reached";
     }
     std::vector<std::string> assumptions(std::string const &prop) const override
     {
-        std::vector<std::string> v = {"sampling, not proof: a clean batch is evidence proportional to the reach numbers in this file", "comparator is a consistent total order on integer keys; nodes are inserted only while not resident and removed only while resident", "clang 14 ASan+UBSan build; removed nodes are poisoned so a stale link is a sanitizer abort, reported as a violation"};
+        std::vector<std::string> v = {"sampling, not proof: a clean batch is evidence proportional to the reach numbers in this file", "comparator is a consistent total order on integer keys (any magnitudes); nodes are removed only while resident; a resident node is offered to insert only as the deliberate 'duplicate is the resident object itself' case", "clang 14 ASan+UBSan build; removed nodes are poisoned so a stale link is a sanitizer abort, reported as a violation"};
         if (prop == "C03") v.push_back("iterator checks run only on trees that pass the C01/C02 structural check (a malformed tree is attributed to C01/C02 and counted as precondition_failed here)");
         return v;
     }
